@@ -416,6 +416,27 @@ def inWfFragment (cls : FieldDecl) : Bool :=
     !c.inline && (if collapses c (fields.map (·.1)) then wfFragP fields else wfFragF cls)
   | _ => false
 
+/-! ### key-renaming mapper: the decidable side conditions of `schema_admits_renamed_partial` -/
+
+def docKeys (r : List (PyVal × PyVal)) : List String := r.filterMap (fun kv => docKey kv.1)
+
+/-- the key map is injective on the list of names -/
+def injOnB (km : KeyMap) (L : List String) : Bool :=
+  L.all fun a => L.all fun b => mapName km a != mapName km b || a == b
+
+/-- the in-place renaming of `required` ends with exactly the mapped required names (it does not when a
+    field is renamed onto the name of a later field: finding `admits:mapper-required-renamed-in-place`) -/
+def requiredFaithful (km : KeyMap) (c : ClassOpts) (defaults : List (String × PyVal)) (names : List String) : Bool :=
+  sameSet (requiredM km defaults names c.required) ((schemaRequired c defaults).map (mapName km))
+
+/-- no two names of the class / keys of the serialized document are mapped onto one key, and the
+    exported `required` is the image of the required names -/
+def renameSafe (km : KeyMap) (cls : FieldDecl) (j : PyVal) : Bool :=
+  match cls, j with
+  | .struct c fields defaults, .dict r =>
+    injOnB km (fields.map (·.1) ++ docKeys r) && requiredFaithful km c defaults (fields.map (·.1))
+  | _, _ => false
+
 /-! ### exact sub-fragment -/
 
 /-- a regular expression that can only match at the start of the string (`re.search` = `re.match`) -/
